@@ -899,6 +899,11 @@ def tb_line(data, config="base"):
             bs += ",%s.%s.0.1" % (hx("restraint"), hx("harmonic"))
     elif config == "hist":
         bs = "%s.%s.0.1.k%s+o%d" % (hx("histogram"), hx("histogram"), hx("grid"), NBINS)
+    elif config == "grid":
+        # colvar_grid::read_restart on a memory_stream: read_block("grid_parameters") = the key and one string, then the values
+        g = "k%s+k%s+a0+o%d" % ("%s", hx("grid_parameters"), NBINS)
+        bs = "%s.%s.0.1.k%s+o%d,%s.%s.1.1.%s+%s" % (hx("histogram"), hx("histogram"), hx("grid"), NBINS,
+                                                      hx("metadynamics"), hx("metadynamics"), g % hx("hills_energy"), g % hx("hills_energy_gradients"))
     elif config == "twin":
         bs = ",".join(["%s.%s.0.1" % (hx("restraint"), hx("harmonic"))] * 2 +
                       ["%s.%s.1.1" % (hx("metadynamics"), hx("metadynamics")), "%s.%s.1.2" % (hx("metadynamics"), hx("metadynamics"))])
